@@ -36,6 +36,7 @@ from oqupy.backends.tempo_backend import TempoBackend
 
 from vf.core import Case, Ob
 from vf import lib, sym
+from vf.poly import ob_eq_poly
 from vf.sym import S
 from vf.env import NpProxy, BUILTIN_SHADOWS
 
@@ -190,12 +191,14 @@ def make_system(inp, name, d, N, tp, coupling):
             return sparse(inp, nm, d, tp)
         return traceless(inp, nm, d) if tp else lib.gen_prop(inp, nm, d)
     base = (lambda nm: lib.tp_prop(inp, nm, d)) if tp else (lambda nm: lib.gen_prop(inp, nm, d))
-    A1 = [base("%sA1_%d" % (name, k)) for k in range(N)]
-    A2 = [base("%sA2_%d" % (name, k)) for k in range(N)]
-    B1 = [coup("%sB1_%d" % (name, k)) for k in range(N)]
-    B2 = [coup("%sB2_%d" % (name, k)) for k in range(N)]
-    C1 = [coup("%sC1_%d" % (name, k)) for k in range(N)]
-    C2 = [coup("%sC2_%d" % (name, k)) for k in range(N)]
+    # one spare step: code that (wrongly) asks for the propagators of step N gets an answer and the
+    # comparison fails, instead of the harness raising
+    A1 = [base("%sA1_%d" % (name, k)) for k in range(N + 1)]
+    A2 = [base("%sA2_%d" % (name, k)) for k in range(N + 1)]
+    B1 = [coup("%sB1_%d" % (name, k)) for k in range(N + 1)]
+    B2 = [coup("%sB2_%d" % (name, k)) for k in range(N + 1)]
+    C1 = [coup("%sC1_%d" % (name, k)) for k in range(N + 1)]
+    C2 = [coup("%sC2_%d" % (name, k)) for k in range(N + 1)]
     return FieldSystem(d, A1, B1, C1, A2, B2, C2)
 
 
@@ -252,6 +255,8 @@ class Oracle:
 
 
 def _scal(x):
+    if not isinstance(x, (S, sym.SI)):
+        return np.array([complex(x)])
     a = np.empty((1,), dtype=object)
     a[0] = S.of(x)
     return a
@@ -312,6 +317,9 @@ class Cdwf(Case):
                                              "_symtime" if symtime else "_t0.5", "" if record_all else "_last")
         # defect class: equation of motion with explicit time dependence in compute_dynamics_with_field
         self.id = ("H1/cdwf_field_time/" if kind not in AUTONOMOUS else "H1/cdwf_auto/") + tag
+        if kind not in AUTONOMOUS:
+            # refuting a polynomial non-identity directly is slow for nlsat: go to the instance search early
+            self.first_timeout_s = 2
         self.bounds = {"N": N, "dims": list(dims), "bond": bond, "envs": nenv, "eom": kind, "symbolic_times": symtime,
                        "record_all": record_all, "coupling": coupling}
         self.env = {"noconj": True, "extra": sym_env_extra()}
@@ -510,10 +518,13 @@ class Cross(Case):
     env = {"noconj": True}
     timeout_s = 600
 
-    def __init__(self, kind, N, K, dims=(2,), coupling="sparse", record_all=True):
+    def __init__(self, kind, N, K, dims=(2,), coupling="sparse", record_all=True, som=False):
         self.kind, self.N, self.K, self.dims, self.coupling, self.record_all = kind, N, K, tuple(dims), coupling, record_all
+        self.som = som       # normal form by z3's sum-of-monomials rewriter first (vf/poly.py), for the larger identities
         tag = "%s_N%d_K%s_d%s_%s%s" % (kind, N, K, "x".join(map(str, dims)), coupling, "" if record_all else "_last")
         self.id = ("H1/cdwf_field_time/cross_" if kind not in AUTONOMOUS else "H1/cross_auto/") + tag
+        if kind not in AUTONOMOUS:
+            self.first_timeout_s = 2
         self.bounds = {"N": N, "dkmax": K, "dims": list(dims), "eom": kind, "coupling": coupling, "start_time": 0.5, "dt": 0.25,
                        "record_all": record_all}
         self.env = {"noconj": True, "extra": sym_env_extra()}
@@ -548,9 +559,10 @@ class Cross(Case):
             pairs = [(N, 0)]
         for n, i in pairs:
             if n < len(f1) and i < len(f2):
-                obs.append(Ob.eq("field %d" % n, f2[i], f1[n]))
+                mk = ob_eq_poly if self.som else (lambda i_, label, g, e: Ob.eq(label, g, e))
+                obs.append(mk(inp, "field %d" % n, _scal(f2[i]), _scal(f1[n])))
                 for s in range(len(dims)):
-                    obs.append(Ob.eq("system %d state %d" % (s, n), s2[s][i], s1[s][n]))
+                    obs.append(mk(inp, "system %d state %d" % (s, n), s2[s][i], s1[s][n]))
         return obs
 
 
@@ -664,10 +676,15 @@ def cases(tier):
         # compute_dynamics_with_field, autonomous equation of motion: holds
         Cdwf("auto", 2), Cdwf("auto", 3, bond=1, coupling="sparse"), Cdwf("auto", 2, record_all=False),
         Cdwf("auto", 2, dims=(2, 2), bond=1, coupling="sparse"), Cdwf("auto", 2, symtime=False),
-        # explicit time dependence: expected known finding (time shifted by one step)
-        Cdwf("linear", 3, bond=1, coupling="none"), Cdwf("uf", 2, bond=1, coupling="sparse"),
+        Cdwf("polyauto", 2, bond=1),
+        # explicit time dependence: expected known finding (time shifted by one step).  The uninterpreted
+        # equation of motion is used with one step only: refuting with nested uninterpreted terms is not
+        # reliably within reach of the solver; N >= 2 uses the polynomial family
+        Cdwf("linear", 3, bond=1, coupling="none"), Cdwf("poly", 2, bond=1, coupling="sparse"),
+        Cdwf("uf", 1, bond=1, coupling="sparse"),
         # MeanFieldTempo
         Mft("uf", 2, 1), Mft("linear", 3, 2, coupling="none"), Mft("uf", 2, None, coupling="none"),
+        Mft("poly", 2, 1, coupling="sparse"),
         # cross-method
         Cross("polyauto", 2, 1), Cross("poly", 2, 1),
         H2(None), H2(4),
@@ -676,12 +693,15 @@ def cases(tier):
         cs += [
             Cdwf("auto", 3), Cdwf("auto", 2, dims=(2, 3), bond=1, coupling="sparse"), Cdwf("auto", 2, nenv=2, bond=1),
             Cdwf("auto", 3, record_all=False, bond=1), Cdwf("auto", 2, dims=(2, 2, 2), bond=1, coupling="sparse"),
-            Cdwf("uf", 3, bond=1, coupling="sparse"), Cdwf("uf", 2, record_all=False, bond=1, coupling="sparse"),
-            Cdwf("linear", 3, symtime=False, bond=1, coupling="none"), Cdwf("uf", 2, dims=(2, 2), bond=1, coupling="sparse"),
+            Cdwf("polyauto", 3, bond=1, coupling="sparse"),
+            Cdwf("poly", 3, bond=1, coupling="none"), Cdwf("poly", 2, record_all=False, bond=1, coupling="sparse"),
+            Cdwf("linear", 3, symtime=False, bond=1, coupling="none"), Cdwf("poly", 2, dims=(2, 2), bond=1, coupling="none"),
+            Cdwf("uf", 1, symtime=False, bond=1, coupling="sparse"),
             Mft("uf", 3, 1, coupling="sparse"), Mft("uf", 3, 2, coupling="sparse"), Mft("auto", 2, 1, dims=(2, 2), coupling="sparse"),
-            Mft("uf", 3, None, coupling="sparse"), Mft("linear", 3, 1),
-            Cross("polyauto", 3, 1), Cross("polyauto", 3, 2), Cross("polyauto", 2, 1, dims=(2, 2)),
-            Cross("polyauto", 2, 1, record_all=False), Cross("poly", 3, 2), Cross("polyauto", 3, None),
+            Mft("uf", 3, None, coupling="sparse"), Mft("linear", 3, 1), Mft("poly", 3, 2, coupling="sparse"),
+            Cross("polyauto", 3, 1, coupling="none"), Cross("polyauto", 3, 2, coupling="none"), Cross("polyauto", 2, 1, dims=(2, 2)),
+            Cross("polyauto", 2, 1, record_all=False), Cross("poly", 3, 2, coupling="none"), Cross("polyauto", 3, None, coupling="none"),
+            Cross("polyauto", 2, 2), Cross("polyauto", 2, None),
             H2(None, d=3),
         ]
     return cs
